@@ -193,7 +193,7 @@ CHECKS = {
         technique="exhaustive enumeration of the layout product against the harness's own decision table + reference decryptor; library and network routes",
         rule="layouts from the product {PS3ISO, ps3iso, Ps3Iso, PS3ISOX, GAMES} x {.iso,.ISO,.Iso,.bin} x nesting 0..2 below the PS3ISO element x {no key, adjacent, REDKEY, both "
              "with different keys, malformed adjacent, malformed adjacent + REDKEY} x {no watermark, encrypted 3k3y watermark with embedded key, decrypted watermark} x file length "
-             "{0xF6F, 0xF70, 0x106F, 0x1070, 8 sectors, 8 sectors+100} x {directly under the root, below a prefix directory}; both tiers enumerate the whole product (12 960 layouts). the "
+             "{0xF6F, 0xF70, 0x106F, 0x1070, 8 sectors, 8 sectors+100} x {directly under the root, below a prefix directory}; both tiers enumerate the whole product (15 120 layouts + 48 long-name cases). the "
              "view obtained through FS.Open (2/3) or the network server (1/3) must equal the reference chosen by "
              "the decision table (adjacent key > REDKEY key > embedded 3k3y key + mask > mask only > identity), read as a whole and through 13 windows overlapping 0xF70..0x1070 by "
              "ReadAt, Seek+Read and both network read commands; files opened for writing read back and store bytes verbatim. non-trivial = every layout; distinct by all factors",
@@ -338,6 +338,7 @@ CHECKS = {
         units=[
             dict(test="TestC04Sessions", unit="sessions", kind="rapid", checks=(1600, 48000), shards=(8, 16), bin=True),
             dict(test="TestC04Content", unit="content", kind="rapid", checks=(2400, 80000), shards=(8, 16), bin=True),
+            dict(test="TestC04Descriptors", unit="descriptors", kind="enum", shards=(5, 10), bin=True),
         ],
     ),
 }
